@@ -60,7 +60,8 @@ def run(ctx):
         if kind == "ragged":
             n = len(model)
             lens = [len(s) for s in model]
-            ops = ["row_slice", "row_slice", "row_mask", "row_fancy", "col_slice", "col_reverse", "eq_char", "copy", "ravel", "concat", "tolist", "assign_row", "assign_elem", "neq_char"]
+            ops = ["row_slice", "row_slice", "row_mask", "row_fancy", "col_slice", "col_reverse", "eq_char", "copy", "ravel", "concat", "tolist", "assign_row", "assign_elem", "neq_char",
+                   "str_equal_ragged", "str_equal_str", "as_string_array", "view_copy_assign", "view_copy_assign"]
             if n:
                 ops += ["row_int", "row_int", "elem"]
             if n and min(lens) > 0:
@@ -108,6 +109,20 @@ def run(ctx):
                 return op, {"i": i, "j": r.randint(0, lens[i] - 1), "c": r.choice(alpha)}
             if op == "assign_col":
                 return op, {"j": r.randint(0, min(lens) - 1), "c": r.choice(alpha)}
+            if op == "view_copy_assign":
+                if not n:
+                    raise Skip()
+                sel = r.choice([("rev",), ("fancy", [r.randint(0, n - 1) for _ in range(r.randint(1, 4))]), ("slice", r.randint(0, n - 1))])
+                return op, {"sel": sel, "c": r.choice(alpha)}
+            if op == "str_equal_ragged":
+                if not n:
+                    raise Skip()
+                other = [(s_ if r.random() < 0.6 else "".join(r.choice(alpha) for _ in range(r.choice([0, len(s_), len(s_) + 1])))) for s_ in model]
+                return op, {"other": other}
+            if op == "str_equal_str":
+                if not n:
+                    raise Skip()
+                return op, {"s": r.choice(model) if r.random() < 0.7 else "".join(r.choice(alpha) for _ in range(r.randint(0, 3)))}
             if op == "ragged_slice":
                 if not n:
                     raise Skip()
@@ -223,6 +238,16 @@ def run(ctx):
                 return "ragged", [s[:p["j"]] + U(p["c"]) + s[p["j"] + 1:] for s in model]
             if op == "ragged_slice":
                 return "ragged", [s[a:b] for s, a, b in zip(model, p["starts"], p["ends"])]
+            if op == "view_copy_assign":
+                sel = p["sel"]
+                view = model[::-1] if sel[0] == "rev" else ([model[i] for i in sel[1]] if sel[0] == "fancy" else model[sel[1]:])
+                return "pylist", [list(view), [U(p["c"]) * len(x) for x in view], list(model)]
+            if op == "str_equal_ragged":
+                return "bool", [a == U(b) for a, b in zip(model, p["other"])]
+            if op == "str_equal_str":
+                return "bool", [a == U(p["s"]) for a in model]
+            if op == "as_string_array":
+                return "pylist", list(model)
         if kind == "flat":
             if op == "int":
                 return "flat0", model[p["i"]]
@@ -329,6 +354,24 @@ def run(ctx):
                 return c
             if op == "ragged_slice":
                 return bnp.ragged_slice(obj, np.array(p["starts"], dtype=int), np.array(p["ends"], dtype=int))
+            if op == "view_copy_assign":
+                # a selection (view), copied at once (nothing decodes or flattens the view in between), then the copy is overwritten
+                sel = p["sel"]
+                view = obj[::-1] if sel[0] == "rev" else (obj[np.array(sel[1], dtype=int)] if sel[0] == "fancy" else obj[sel[1]:])
+                c = view.copy()
+                c[c != p["c"]] = p["c"]
+                return [text_rows(view) if len(view) else [], text_rows(c) if len(c) else [], text_rows(obj) if len(obj) else []]
+            if op == "str_equal_ragged":
+                from bionumpy.io.strops import str_equal
+                return str_equal(obj, mk(p["other"]))
+            if op == "str_equal_str":
+                from bionumpy.io.strops import str_equal
+                if p["s"] == "":
+                    raise Skip()
+                return str_equal(obj, p["s"])
+            if op == "as_string_array":
+                from bionumpy.string_array import as_string_array
+                return [str(x) for x in as_string_array(obj).tolist()]
         if kind == "flat":
             if op == "int":
                 return obj[p["i"]]
@@ -468,6 +511,14 @@ def run(ctx):
                 ctx.judged(opkey, nt)
                 ctx.violation("%s/result-not-decodable:%s" % (opkey, type(e).__name__), "result of %s cannot be decoded: %s" % (opkey, str(e)[:100]), wit)
                 return
+            if op.startswith("assign") or op == "copy":
+                # item assignment ran on a copy: the object the copy was taken from still decodes to its own model
+                try:
+                    still = observed(obj, kind)
+                except Exception:
+                    still = None
+                ctx.check("source-unchanged-by-copy+assign", still == model, "%s/assignment-to-a-copy-changed-the-source" % opkey, "after %s on a copy the source reads %r, expected %r" % (op, still if not isinstance(still, list) else still[:5], model if not isinstance(model, list) else model[:5]),
+                          dict(wit, source_now=still, expected=model), nt and (nt, "src"))
             ok = got == new_model
             ctx.check(opkey, ok, "%s/differs-from-list-model" % opkey, "%s: got %r, list model %r" % (opkey, got if not isinstance(got, list) else got[:6], new_model if not isinstance(new_model, list) else new_model[:6]),
                       dict(wit, got=got, expected=new_model), nt)
